@@ -58,7 +58,27 @@ func runC01(c *Ctx) {
 			c.obI("R01.1", ci, "context-router", vFieldLoadO("rt/middleware.Context", "router")(recv), "the router asked is the context's router", "")
 		}
 	}
-	c.min("R01.1", 8)
+	// the answer handed back is the router's answer to this very question: a route remembered from an earlier
+	// request (under whatever key) is a different question's answer
+	{
+		f := p.Fn("(*rt/middleware.Context).LookupRoute")
+		for _, r := range returnsOf(f) {
+			if len(r.Results) < 1 {
+				continue
+			}
+			ok, bad := allOrigins(r.Results[0], oNil(), oCall(0, "(rt/middleware.Router).Lookup"))
+			c.obI("R01.1", r, "route-is-this-lookups-answer", ok, "the route LookupRoute returns is what the router answered for this request's method and escaped path (not a remembered answer to another request)", "origin "+describeOrigin(bad))
+		}
+		f = p.Fn("(*rt/middleware.Context).AllowedMethods")
+		for _, r := range returnsOf(f) {
+			if len(r.Results) < 1 {
+				continue
+			}
+			ok, bad := allOrigins(r.Results[0], oNil(), oCall(0, "(rt/middleware.Router).OtherMethods"))
+			c.obI("R01.1", r, "allow-is-this-lookups-answer", ok, "the methods AllowedMethods returns are what the router answered for this request's method and escaped path", "origin "+describeOrigin(bad))
+		}
+	}
+	c.min("R01.1", 10)
 
 	// R01.2
 	lk := p.Fn("(*rt/middleware.defaultRouter).Lookup")
@@ -114,16 +134,20 @@ func runC01(c *Ctx) {
 			}
 			c.obI("R01.2", ref, "raw-path-only-cleaned", okUse, "the raw request path is used for nothing but path.Clean (and debug logging): no routing decision — found, not found, other methods — is taken on the uncleaned path", "the raw path is used by "+what)
 		}
-		ups := callsIn(f, "strings.ToUpper")
-		okU := len(ups) == 1
-		if okU {
-			okU, _ = allOrigins(ups[0].Common().Args[0], oIsValue(method))
+		// "the upper-cased method": a value all of whose origins are strings.ToUpper(method) — also through a helper
+		// (a helper that hands the method back unchanged on some path contributes the raw parameter as an origin)
+		var badUp *Origin
+		isUp := func(v ssa.Value) bool {
+			ok, bad := allOrigins(v, oCallWhere(0, "strings.ToUpper", func(sc *ssa.Call) bool {
+				okA, _ := allOrigins(sc.Call.Args[0], oIsValue(method))
+				return okA
+			}))
+			if !ok {
+				badUp = bad
+			}
+			return ok
 		}
-		c.obF("R01.2", f, "method-upper-cased", okU, "the method is upper-cased before it selects a router", "")
-		if !okU {
-			continue
-		}
-		up := ups[0].Value()
+		c.obRF("R01.2", f, "method-upper-cased", len(callSitesUnder(f, "strings.ToUpper")) >= 1, "the method is upper-cased before it selects a router", "")
 		if f == lk {
 			n := 0
 			for _, in := range instrs(f) {
@@ -132,8 +156,8 @@ func runC01(c *Ctx) {
 					continue
 				}
 				n++
-				okK, _ := allOrigins(l.Index, oIsValue(up))
-				c.obI("R01.2", l, "router-by-upper-method", okK, "the router is selected by the upper-cased method", "key "+describe(l.Index))
+				okK := isUp(l.Index)
+				c.obI("R01.2", l, "router-by-upper-method", okK, "the router is selected by the upper-cased method (in any letter case the same operation is selected)", "key "+describe(l.Index)+": origin "+describeOrigin(badUp))
 			}
 			c.obRF("R01.2", f, "selects-router", n == 1, "Lookup selects the method's router", "")
 		} else {
@@ -148,7 +172,7 @@ func runC01(c *Ctx) {
 					if !ok || (bo.Op != token.EQL && bo.Op != token.NEQ) {
 						return false
 					}
-					if !((bo.X == key && bo.Y == up) || (bo.Y == key && bo.X == up)) {
+					if !((bo.X == key && isUp(bo.Y)) || (bo.Y == key && isUp(bo.X))) {
 						return false
 					}
 					return b == (bo.Op == token.NEQ)
@@ -187,7 +211,8 @@ func runC01(c *Ctx) {
 	bd := p.Fn("(*rt/middleware.defaultRouteBuilder).Build")
 	for _, l := range mapLoops(bd, vFieldLoad("rt/middleware.defaultRouteBuilder", "records", nil)) {
 		key, val := extractOf(l.Next, 1), extractOf(l.Next, 2)
-		okEach := l.everyIteration(func(in ssa.Instruction) bool {
+		// (a method whose record list is empty has nothing to route: skipping it is no loss)
+		okEach := l.everyIterationUnless(factLenPositive(vIs(val), false), func(in ssa.Instruction) bool {
 			mu, ok := in.(*ssa.MapUpdate)
 			return ok && mu.Key == key
 		})
@@ -241,15 +266,7 @@ func runC01(c *Ctx) {
 		ok, _ := allOrigins(st.Val, oIsValue(paramOf(ar, 2)))
 		c.obI("R01.4", st, "entry-operation", ok, "the entry records its operation", "")
 	}
-	for _, ci := range callsIn(ar, "(rt/middleware.RoutableAPI).HandlerFor") {
-		_, a := callArgs(ci.Common())
-		okM, _ := allOrigins(a[0], oIsValue(paramOf(ar, 0)))
-		okP, _ := allOrigins(a[1], oCallWhere(-1, "strings.TrimPrefix", func(t *ssa.Call) bool {
-			okk, _ := allOrigins(t.Call.Args[0], oIsValue(pathP))
-			return okk
-		}))
-		c.obI("R01.4", ci, "handler-for-operation", okM && okP, "the handler is looked up for (method, template without base path)", "")
-	}
+	ruleOperationLookedUpByRelativePath(c, "R01.4")
 	dr := p.Fn("rt/middleware.DefaultRouter")
 	adds := callsIn(dr, "(*rt/middleware.defaultRouteBuilder).AddRoute")
 	c.obRF("R01.4", dr, "routes-operations", len(adds) == 1, "DefaultRouter routes the spec's operations", "")
@@ -533,5 +550,62 @@ func rulePathValuesDecodedOnce(c *Ctx, rule string) {
 			c.obI(rule, l.Elem, "every-capture-handed-on", okAll, "every captured parameter yields at least one route parameter", "a capture can be dropped")
 		}
 	}
-	c.min(rule, 9)
+	// values are read back by their exact name: the entry GetOK answers with is one whose Name equals the name asked for
+	{
+		g := p.Fn("(rt/middleware.RouteParams).GetOK")
+		name := paramOf(g, 0)
+		exact := func(cond ssa.Value, branch bool) bool {
+			cnd, b := stripNot(cond, branch)
+			bo, ok := cnd.(*ssa.BinOp)
+			if !ok || (bo.Op != token.EQL && bo.Op != token.NEQ) {
+				return false
+			}
+			isName := vOrigins(oIsValue(name))
+			isField := vFieldLoad(routeParamT, "Name", nil)
+			if !((isName(bo.X) && isField(bo.Y)) || (isName(bo.Y) && isField(bo.X))) {
+				return false
+			}
+			return b == (bo.Op == token.EQL)
+		}
+		n := 0
+		for _, r := range returnsOf(g) {
+			if len(r.Results) < 3 {
+				continue
+			}
+			if b, isK := constBool(r.Results[1]); isK && !b {
+				continue
+			}
+			n++
+			c.obI(rule, r, "value-read-by-exact-name", guardedBy(r, nil, exact), "RouteParams.GetOK answers 'present' only for an entry whose name is exactly the name asked for (two placeholders whose names differ in letter case keep their own values)", "a 'present' answer is reachable without the comparison entry.Name == name")
+		}
+		c.obRF(rule, g, "getok-can-answer", n >= 1, "GetOK has a 'present' answer", "")
+	}
+	c.min(rule, 10)
+}
+
+// ruleOperationLookedUpByRelativePath: AddRoute asks the API for the handler, and the analyzer for the parameters, of
+// (method, strings.TrimPrefix(path, basePath)) — the operation's own template: the base path is taken off the FRONT,
+// once (a Replace / ReplaceAll also rewrites templates that merely contain the base path's text: "." when there is no
+// base path). Shared by C01 (dispatch) and C19 (a validated API serves every declared operation).
+func ruleOperationLookedUpByRelativePath(c *Ctx, rule string) {
+	ar := c.P.Fn("(*rt/middleware.defaultRouteBuilder).AddRoute")
+	pathP := paramOf(ar, 1)
+	isRel := oCallWhere(-1, "strings.TrimPrefix", func(t *ssa.Call) bool {
+		okk, _ := allOrigins(t.Call.Args[0], oIsValue(pathP))
+		return okk
+	})
+	n := 0
+	for _, ci := range callsIn(ar, "(rt/middleware.RoutableAPI).HandlerFor") {
+		n++
+		_, a := callArgs(ci.Common())
+		okM, _ := allOrigins(a[0], oIsValue(paramOf(ar, 0)))
+		okP, bad := allOrigins(a[1], isRel)
+		c.obI(rule, ci, "handler-for-operation", okM && okP, "the handler is looked up for (method, template without base path)", "path argument: origin "+describeOrigin(bad))
+	}
+	for _, ci := range callsIn(ar, "(*github.com/go-openapi/analysis.Spec).ParamsFor") {
+		_, a := callArgs(ci.Common())
+		okP, bad := allOrigins(a[1], isRel)
+		c.obI(rule, ci, "parameters-for-operation", okP, "the parameters are those the analyzer lists for (method, template without base path)", "path argument: origin "+describeOrigin(bad))
+	}
+	c.obRF(rule, ar, "asks-for-handler", n >= 1, "AddRoute asks the API for the operation's handler", "")
 }
